@@ -272,6 +272,13 @@ class Generator:
             o = new.index('{')
             new = new[:o + 1] + '\n    let mut %s = %s;' % (p1, p0) + new[o + 1:]
             self.rule_log['R14:mut-param'] = self.rule_log.get('R14:mut-param', 0) + 1
+        if spec.get('mutself'):
+            # R14': `mut self` (by value) == immutable `self` plus `let mut self__ = self;` as the first statement (Verus has no `mut self`)
+            if not re.search(r'\(\s*mut self\b', parts['sig']):
+                raise ExtractError('%s: receiver `mut self` not found in the real signature' % spec['name'])
+            o = new.index('{')
+            new = new[:o + 1] + '\n    let mut self__ = self;' + re.sub(r'\bself\b', 'self__', new[o + 1:])
+            self.rule_log['R14:mut-self'] = self.rule_log.get('R14:mut-self', 0) + 1
         for where, pat, text in spec.get('hints', []):
             # ghost-only hints (proof blocks / ghost lets) anchored at a statement of the real body; exec statements are untouched
             ls = new.split('\n')
@@ -592,7 +599,7 @@ class Generator:
                     try:
                         self.extract_body(sp)
                     except ExtractError as e:
-                        if 'found 0' not in str(e):
+                        if 'found 0' not in str(e) and 'no impl block' not in str(e):
                             raise
                         self.notes.append('optional function %s not present in the source: contract dropped' % name)
                         self.rule_log['optional-function-absent'] = self.rule_log.get('optional-function-absent', 0) + 1
